@@ -137,6 +137,17 @@ impl CodeCache {
       if code_slice.len() < 1 {
         break;
       }
+      // An instruction may extend past the end of the region it starts in
+      // (e.g. a three-byte instruction at 0x3FFF); fetch it through the bus
+      let mut fetched = [0u8; 3];
+      let code_slice = if code_slice.len() < 3 {
+        for i in 0..3 {
+          fetched[i] = crate::mem::memory_read_byte(mem, (index + i) as u16);
+        }
+        &fetched[..]
+      } else {
+        code_slice
+      };
       let (next_op, length, _cycles) = decode(code_slice);
       index += length;
       block_ended = next_op.is_block_end();
